@@ -560,3 +560,92 @@ func VHAvlFib() {
 		vCover("fib: add")
 	}
 }
+
+// c01fast: true height of n; *bal and *hts are cleared if some node is out of balance or caches
+// a wrong height (one pass, for the big trees).
+func c01fast(n *node[int], bal, hts *bool) int {
+	if n == nil {
+		return -1
+	}
+	l, r := c01fast(n.left, bal, hts), c01fast(n.right, bal, hts)
+	if d := l - r; d < -1 || d > 1 {
+		*bal = false
+	}
+	h := l + 1
+	if r > l {
+		h = r + 1
+	}
+	if n.height != h {
+		*hts = false
+	}
+	return h
+}
+
+// VHAvlFibDeep: the same on the sparsest AVL tree of a height beyond 16 (4180 concrete values for
+// H=17, built directly in the representation): an insertion or removal at the end of the longest
+// root-to-leaf path, at the other end and in the middle must retrace the whole path. In the
+// sparsest tree a single insertion is absorbed by a rotation right where it happens, so a third
+// mode adds three symbolic values into the three gaps at the deep end of the two one-sided
+// orientations: the first ones fill the bottom of the path, after which a height change travels
+// upwards before a rotation absorbs it.
+func VHAvlFibDeep() {
+	h := vParam("HDEEP")
+	n := c02fibSize(h)
+	vals := make([]int, n)
+	for i := range vals {
+		vals[i] = 8 * i
+	}
+	next := 0
+	orient := vChoose("orient", 4)
+	root := c02fib(h, 0, orient, &next, &vals)
+	t := &Tree[int]{compare: typ.Compare[int], root: root, count: n}
+	bal, hts := true, true
+	vAssert(c01fast(t.root, &bal, &hts) == h && bal && hts, "deep fibonacci tree: built with the intended height")
+	size := n
+	check := func(what string) {
+		bal, hts := true, true
+		ht := c01fast(t.root, &bal, &hts)
+		vAssert(bal, "deep fibonacci tree: every node's subtree heights differ by at most one after "+what)
+		vAssert(hts, "deep fibonacci tree: cached heights equal the true heights after "+what)
+		vAssert(ht <= c02maxHeight(size), "deep fibonacci tree: depth bound after "+what)
+	}
+	switch vChoose("op", 3) {
+	case 0:
+		at := []int{0, 1, n / 2, n - 2, n - 1}[vChoose("at", 5)]
+		vAssert(t.Remove(vals[at]), "deep fibonacci tree: Remove finds the value")
+		size--
+		check("Remove")
+	case 1:
+		at := []int{0, 1, n / 2, n - 2, n - 1}[vChoose("at", 5)]
+		v := vInt("new")
+		vAssume(vAnd(v >= vals[at]-1, v <= vals[at]+1))
+		t.Add(v)
+		size++
+		check("Add")
+		vAssert(t.Contains(v), "deep fibonacci tree: the value was added")
+	case 2:
+		if orient > 1 {
+			return
+		}
+		lo, hi := -8, 8*2 // the gaps before vals[0] .. vals[2]
+		if orient == 1 {
+			lo, hi = 8*(n-3), 8*n
+		}
+		for k := 0; k < 3; k++ {
+			v := vInt("new")
+			vAssume(vAnd(v > lo, v < hi))
+			t.Add(v)
+			size++
+		}
+		check("several Adds at the deep end")
+		vCover("fib deep: three adds at one end")
+	}
+	vAssert(t.Len() == size, "deep fibonacci tree: Len follows")
+	var in []int
+	c01in(t.root, &in)
+	vAssert(len(in) == size, "deep fibonacci tree: the walk lists every value")
+	for i := 1; i < len(in); i++ {
+		vAssert(in[i-1] <= in[i], "deep fibonacci tree: still ordered")
+	}
+	vCover("fib deep done")
+}
